@@ -41,6 +41,13 @@ pub trait Rule: RuleClone + Debug + Send {
         };
         let (kind, expression) = self.unmake();
         let rendered = escaper.escaped_printable(&expression);
+        // where nothing else needed escaping the backslashes were left alone as well: an
+        // escaped expectation is read back with its escape sequences resolved, though
+        let rendered = if kind == "escaped" && !escaper.has_unprintable(&expression) {
+            rendered.replace('\\', "\\\\")
+        } else {
+            rendered
+        };
         if kind == "equal" {
             if escaper.has_unprintable(&expression) {
                 format!("{rendered} (escaped{quantifier})")
